@@ -83,7 +83,7 @@ def dump_all(port):
     return out
 
 
-def history(ctx, i, gen_factory, n, dbs, txn):
+def history(ctx, i, gen_factory, n, dbs, txn, sel_rate=0.06):
     srv = ctx.new_server(name='aof', appendonly=True)
     tr = ctx.new_trace('aof%d' % i)
     tr.emit({'k': 'config', 'aof': 1})
@@ -104,14 +104,16 @@ def history(ctx, i, gen_factory, n, dbs, txn):
         while j < n:
             c = workloads.ensure_conn(s, c)
             r = rnd.random()
-            if dbs and r < 0.06:
+            if dbs and r < sel_rate:
                 s.cmd(c, [b'SELECT', str(rnd.choice([0, 1, 2])).encode()])
-            elif txn and r < 0.12:
+            elif txn and r < sel_rate + 0.06:
                 s.cmd(c, [b'MULTI'])
                 for _ in range(rnd.randrange(1, 4)):
                     a = g.next()
                     if isinstance(a, list):
                         s.cmd(c, a)
+                    if dbs and rnd.random() < sel_rate:
+                        s.cmd(c, [b'SELECT', str(rnd.choice([0, 1, 2])).encode()])
                 s.cmd(c, [b'EXEC'])
             else:
                 a = g.next()
@@ -267,6 +269,43 @@ class AofWrites(workloads.Pool):
         return self.z.next()
 
 
+class DbHopWrites(workloads.Pool):
+    """Where the file is positioned: few keys, equal names in every database, one command of every LOGGING CLASS — logged
+    verbatim, logged by outcome (SPOP, XADD *), addressed to every database (FLUSHALL) or the whole selected one (FLUSHDB),
+    changing nothing (not logged or logged harmlessly), failing — meant to be driven with a SELECT before every third command."""
+
+    def __init__(self, rnd):
+        workloads.Pool.__init__(self, rnd)
+        self.n = 0
+
+    def next(self):
+        r = self.rnd
+        self.n += 1
+        c = r.randrange(24)
+        if c == 0: return [b'FLUSHALL']
+        if c == 1: return [b'FLUSHDB']
+        if c == 2: return [b'SPOP', b's']
+        if c == 3: return [b'XADD', b'x', b'*', b'f', b'%d' % self.n]
+        if c == 4: return [b'SADD', b's', b'a', b'b', b'%d' % (self.n % 5)]
+        if c == 5: return [b'RPUSH', b'l', b'%d' % self.n]
+        if c == 6: return [b'LPOP', b'l']
+        if c == 7: return [b'BLPOP', b'nolist', b'l', b'0.01']
+        if c == 8: return [b'DEL', b'k', b'nokey']
+        if c == 9: return [b'INCR', b'n']
+        if c == 10: return [b'INCR', b'l']                     # fails
+        if c == 11: return [b'SET', b'k', b'v%d' % self.n, b'NX']
+        if c == 12: return [b'EXPIRE', b'k', b'1000']
+        if c == 13: return [b'RENAME', b'k', b'k2']
+        if c == 14: return [b'HSET', b'h', b'f', b'%d' % self.n]
+        if c == 15: return [b'ZADD', b'z', b'%d' % (self.n % 7), b'm%d' % (self.n % 3)]
+        if c == 16: return [b'GET', b'k']
+        if c == 17: return [b'MSET', b'k', b'a', b'k2', b'b']
+        if c == 18: return [b'FLUSHALL'] if r.random() < 0.5 else [b'FLUSHDB']
+        if c == 19: return [b'SREM', b's', b'nomember']
+        if c == 20: return [b'APPEND', b'k', b'+']
+        return [b'SET', b'k', b'v%d' % self.n]
+
+
 def write_set_in_source():
     """The command names of Server::is_write_command (src/network/server.rs)."""
     import re
@@ -296,6 +335,9 @@ def run(ctx):
     n = 3 if ctx.quick else 24
     for i in range(n):
         history(ctx, i, AofWrites, 250 if ctx.quick else 800, dbs=(i % 3 == 1), txn=(i % 3 == 2))
+    # where the file is positioned: a SELECT before every third command, one command of every logging class, also inside EXEC
+    for i in range(2 if ctx.quick else 12):
+        history(ctx, 100 + i, DbHopWrites, 300 if ctx.quick else 800, dbs=True, txn=(i % 2 == 1), sel_rate=0.3)
     F = forms.FORMS
     if ctx.quick:
         forms_history(ctx, 'forms-direct', 'direct', F[ctx.seed % 2::2])
